@@ -19,7 +19,10 @@
 EXTENDS MemLimitContract, TLC, Json, IOUtils
 
 CONSTANTS Variant,     \* which variant of the protocol the library follows (see MemLimit)
-          SlackMt      \* allowance of the threaded decoder (thread table, coder structures)
+          SlackMt,     \* allowance of the threaded decoder (thread table, coder structures)
+          SlackIndex   \* allowance of the Index / file info decoders: their usage is lzma_index_memusage() of the
+                       \* Indexes only (no LZMA_MEMUSAGE_BASE), the coder structures (8 KiB buffer of the file info
+                       \* decoder, lzma_internal, Index decoder) come on top
 
 TraceLog == ndJsonDeserialize(IOEnv.TRACE)
 
@@ -30,6 +33,7 @@ TInit == l = 1 /\ d = StInit(1) /\ kind = "none"
 IsEvent(e) == l <= Len(TraceLog) /\ TraceLog[l].e = e /\ l' = l + 1
 
 IndexKinds == {"index", "file_info"}
+SlackOf(k) == IF k \in IndexKinds THEN SlackIndex ELSE Slack
 
 TReset == IsEvent("Reset") /\ d' = StInit(1) /\ kind' = "none"
 
@@ -38,12 +42,12 @@ TNew == /\ IsEvent("Init")
            /\ kind' = t.kind
            /\ t.kind \notin IndexKinds => t.usage = BASE
            /\ d' = [StInit(t.limit) EXCEPT !.usage = t.usage, !.held = t.live]
-           /\ t.peak - Slack <= Max(t.limit, BASE)
+           /\ t.peak - SlackOf(t.kind) <= Max(t.limit, BASE)
 
 TCode ==
     /\ IsEvent("Code") /\ UNCHANGED kind
     /\ LET t == TraceLog[l] u == t.usage IN
-       /\ t.peak - Slack <= Max(d.limit, BASE)                       \* contract (a), on the measured peak
+       /\ t.peak - SlackOf(kind) <= Max(d.limit, BASE)                \* contract (a), on the measured peak
        /\ t.limit = d.limit
        /\ CASE t.ret = "MEMLIMIT_ERROR" ->
                  LET r == StReach(d, u, 0, Variant) IN
@@ -55,7 +59,7 @@ TCode ==
                  \* an Index decoder reports the need as soon as the Record count is known, one step before testing it
                  \/ kind \in IndexKinds /\ t.ret = "OK" /\ t.live <= d.held /\ d' = [d EXCEPT !.usage = u]
             [] OTHER -> d' = [d EXCEPT !.held = t.live, !.phase = IF @ = "blocked" THEN @ ELSE "run"]
-       /\ StWithinLimit(d')
+       /\ StLive(d') - SlackOf(kind) <= Max(d'.limit, BASE)
 
 TSet == /\ IsEvent("Set") /\ UNCHANGED kind
         /\ LET t == TraceLog[l] r == StSet(d, t.new, Variant) IN
